@@ -42,6 +42,9 @@ def freshResultQ (q : Ref → QKind → List Ref) (fdpt : Nat → List Nat)
      | "walkfail" => halfWalk w r
      | "syntax" => [⟨0, [if f.syn == "proto3" then 3 else if f.syn == "" || f.syn == "proto2" then 2 else 0]⟩]
      | "desc" => descIntact
+     | "sci" => descIntact
+     | "syntaxSci" => descIntact
+     | "packageSci" => descIntact
      | _ => [])
   | [5, i], some f =>
     (match f.enums[i]?, acc with
